@@ -22,9 +22,19 @@ Inductive nspec_c :=
 | SConst (t : Q)
 | SArr (ts : list Q)
 | SAffine (c0 : Q) (cs : list Q)                    (* t(p) = c0 + cs . p *)
-| SStep (ax : nat) (x0 lo hi : Q).                  (* t(p) = lo if p[ax] < x0 else hi *)
+| SStep (ax : nat) (x0 lo hi : Q)                   (* t(p) = lo if p[ax] < x0 else hi *)
+| SField (p1 p2 : list Q) (ns : list Z) (vals : list Q).
+      (* a one-component Field on its own mesh: t(p) = value of the cell of that mesh containing p *)
 
-Inductive op_c := PSetNorm (s : nspec_c) | PUpdate (vals : list Q) | PSetValid (vs : vspec).
+(* in-place writes into field.array *)
+Inductive write_c :=
+| WScale (c : Q)                                    (* array[...] *= c *)
+| WCell (j : nat) (v : list Q)                      (* array[idx] = v, j = C-order position of idx *)
+| WComp (comp : nat) (c : Q) (mul : bool)           (* array[..., comp] *= c  /  = c *)
+| WSlice (lo hi : nat) (v : list Q).                (* array[i] = v: cells lo .. hi-1 *)
+
+Inductive op_c := PSetNorm (s : nspec_c) | PUpdate (vals : list Q) | PSetValid (vs : vspec)
+                | PWrite (w : write_c).
 
 Record c15_obs := mkObs {
   o_arr : list Q; o_valid : list bool;
@@ -43,8 +53,19 @@ Notation QK := QcOps.
 
 Definition dotq (a b : list Q) : Q := qsum (map2 Qmult a b).
 
+Definition build (p1 p2 : list Q) (n_ : list Z) : res mesh :=
+  do r <- mk_region p1 p2 None None (1 # 1000000000000); mk_mesh_n r n_.
+
 Definition to_nspec (s : nspec_c) : nspec QK :=
   match s with
+  | SField p1 p2 ns vals =>
+      match build p1 p2 ns with
+      | OK ms => @NFun QK (fun p => match point2index ms p with
+                                    | OK i => qc (nth (ravel (znat ns) (znat i)) vals 0)
+                                    | Err _ => qc 0
+                                    end)
+      | Err _ => @NFun QK (fun _ => qc 0)
+      end
   | SConst t => @NConst QK (qc t)
   | SArr ts => @NArr QK (qcl ts)
   | SAffine c0 cs => @NFun QK (fun p => qc (c0 + dotq cs p))
@@ -58,8 +79,21 @@ Fixpoint chunk {A} (k : nat) (l : list A) (fuel : nat) : list (list A) :=
   end.
 Definition cells_of (nvdim : nat) (vals : list Q) : list (list Q) := chunk nvdim vals (length vals).
 
+Fixpoint mapi_from {A} (k : nat) (g : nat -> A -> A) (l : list A) : list A :=
+  match l with [] => [] | x :: t => g k x :: mapi_from (S k) g t end.
+
+Definition to_write (w : write_c) : list (list Qc) -> list (list Qc) :=
+  match w with
+  | WScale c => map (map (fun x => Qcmult x (qc c)))
+  | WCell j v => mapi_from 0 (fun k x => if (k =? j)%nat then qcl v else x)
+  | WComp comp c mul =>
+      map (mapi_from 0 (fun k x => if (k =? comp)%nat then (if mul then Qcmult x (qc c) else qc c) else x))
+  | WSlice lo hi v => mapi_from 0 (fun k x => if (lo <=? k)%nat && (k <? hi)%nat then qcl v else x)
+  end.
+
 Definition to_op (nvdim : nat) (o : op_c) : op QK :=
   match o with
+  | PWrite w => @OWrite QK (to_write w)
   | PSetNorm s => OSetNorm (to_nspec s)
   | PUpdate vals => @OUpdate QK (map qcl (cells_of nvdim vals))
   | PSetValid vs => @OSetValid QK vs
@@ -84,9 +118,6 @@ Fixpoint run_def (f : field QK) (os : list (op QK)) : bool * res (field QK) :=
       end
   end.
 
-Definition build (p1 p2 : list Q) (n_ : list Z) : res mesh :=
-  do r <- mk_region p1 p2 None None (1 # 1000000000000); mk_mesh_n r n_.
-
 (* is the array at the end of the history the result of a division (hence only close to the
    model's), or verbatim input data? *)
 Fixpoint approx_after (a : bool) (os : list op_c) : bool :=
@@ -95,6 +126,7 @@ Fixpoint approx_after (a : bool) (os : list op_c) : bool :=
   | PSetNorm _ :: r => approx_after true r
   | PUpdate _ :: r => approx_after false r
   | PSetValid _ :: r => approx_after a r
+  | PWrite _ :: r => approx_after a r
   end.
 
 Definition cell_close (approx : bool) (m o : list Q) : bool :=
